@@ -430,6 +430,8 @@ func c05Poison(a *ChildArgs, avoid map[string]bool, seed int64, afterKeywords bo
 				if s[j] == '\n' {
 					line++
 					col = 1
+				} else if s[j] == '\t' {
+					col += 4 // the tokenizer's column unit: a tab counts as four (as in C13)
 				} else {
 					col++
 				}
